@@ -949,7 +949,35 @@ class EvalMixin:
                 raise OutOfSubset('comprehension kind')
 
     def comprehension_as_loop(self, e, st, kind):
-        raise OutOfSubset('comprehension with effects')
+        """comprehension whose body has effects (contract calls): desugared into
+               acc<k> = [] ; for <target> in <iter>: [if c:] acc<k>.append(<elt>)
+        and cut by the loop contract registered under the comprehension's ordinal k"""
+        ordinals = self.loop_ordinals_stack[-1] if self.loop_ordinals_stack else {}
+        k = ordinals.get(id(e))
+        if k is None:
+            raise OutOfSubset('comprehension with effects (no ordinal)')
+        g = e.generators[0]
+        acc = 'acc%d' % k
+        app = ast.Expr(value=ast.Call(func=ast.Attribute(value=ast.Name(id=acc, ctx=ast.Load()), attr='append', ctx=ast.Load()),
+                                      args=[e.elt], keywords=[]))
+        body = [app]
+        for c in reversed(g.ifs):
+            body = [ast.If(test=c, body=body, orelse=[])]
+        loop = ast.For(target=g.target, iter=g.iter, body=body, orelse=[])
+        init = ast.Assign(targets=[ast.Name(id=acc, ctx=ast.Store())], value=ast.List(elts=[], ctx=ast.Load()))
+        mod = ast.Module(body=[init, loop], type_ignores=[])
+        ast.fix_missing_locations(mod)
+        for n in ast.walk(mod):
+            if not hasattr(n, 'lineno'):
+                n.lineno = getattr(e, 'lineno', 0)
+        ordinals[id(loop)] = k
+        for o in self.ex_block(mod.body, st):
+            if o.kind == 'normal':
+                yield o.st.env[acc], o.st
+            elif o.kind == 'raise':
+                self.pending_raises[-1].append(o)
+            else:
+                raise OutOfSubset('control flow escaping a comprehension')
 
 
 class EnumV:
